@@ -453,6 +453,18 @@ def monitor_ctor(case, obs, gw):
                     return f"protocol_version={v!r} stored as {gw.protocol_version!r}, expected {exp[1]!r}"
             elif gw.const.__name__ not in dict((m, 1) for _, m in SUPPORTED):
                 return f"protocol_version={v!r} selects unknown module {gw.const.__name__}"
+    # an option that was NOT given keeps the value the README documents (it must not depend on what other
+    # gateways of this process were configured with)
+    if fam in ("serial", "tcp"):
+        for k, d in (("timeout", 1.0), ("reconnect_timeout", 10.0)):
+            if k not in given and not same(getattr(tr, k, None), d):
+                return f"{k} not given but transport.{k}={getattr(tr, k, None)!r} (documented default {d!r})"
+    if fam == "serial" and "baud" not in given and len(case["pos"]) < 2 and not same(gw.baud, 115200):
+        return f"baud not given but gateway.baud={gw.baud!r} (documented default 115200)"
+    if fam == "tcp" and "port" not in given and len(case["pos"]) < 2 and not same(gw.server_address[1], 5003):
+        return f"port not given but server_address={gw.server_address!r} (documented default port 5003)"
+    if "protocol_version" not in given and (gw.const.__name__ != "mysensors.const_14" or gw.protocol_version != "1.4"):
+        return f"protocol_version not given but {gw.const.__name__} / {gw.protocol_version!r} selected (documented default '1.4')"
     if fam == "mqtt":
         why = mqtt_effect(gw, given)
         if why:
